@@ -105,6 +105,19 @@ def step (_ : Unit) (line : String) : Unit × String :=
       let (s2, e2) := Sig.deserialize s1 b2
       "err=" ++ b01 e1 ++ b01 e2 ++ " " ++ sigReport s2
     | _, _ => "bad-op"
+  | ["sigh2", h1, h2] => match ofHex? h1, ofHex? h2 with
+    -- Signature.SetHexString twice on one object: Unmarshal of the hex bytes, error discarded
+    | some b1, some b2 => sigReport (g1Unmarshal (g1Unmarshal .nil b1).1 b2).1
+    | _, _ => "bad-op"
+  | ["pkd2", h1, h2] => match ofHex? h1, ofHex? h2 with
+    | some b1, some b2 =>
+      let (p1, _) := Pub.deserialize .nil b1
+      let (p2, st) := Pub.deserialize p1 b2
+      statusStr st ++ " " ++ pubReport p2
+    | _, _ => "bad-op"
+  | ["pkh2", h1, h2] => match ofHex? h1, ofHex? h2 with
+    | some b1, some b2 => pubReport (g2Unmarshal (g2Unmarshal .nil b1).1 b2).1
+    | _, _ => "bad-op"
   | ["pkd", h] => match ofHex? h with
     | some b =>
       let (v, st) := Pub.deserialize .nil b
